@@ -7,7 +7,7 @@ over a Go map, allEqualB_iff for the monitor.
 Tie: T-diff stream `cmp` - the real SortServicesByCreationTime, sortConfigByCreationTime,
 sortConfigBySelectorAndCreationTime, EndpointShards.Keys + EndpointBuilder (locality grouping),
 sets.SortedList, Connection.watchedResourcesByOrder, route.TranslateRouteMatch, pickBestVisibleNamespace,
-endpointSliceCache vs the Lean models, line by line.
+endpointSliceCache, SortWorkloadsByCreationTime vs the Lean models, line by line.
 Exploration (not proof): stream `perm` - the permutation harness on REAL generation: every mesh is built K
 times on a FakeDiscoveryServer with permuted insertion order (partly before, partly after start), generated
 R times from rebuilt PushContexts (from scratch, every third one incrementally from its predecessor) with the XDS cache cleared, in two separate processes; every resource of
@@ -200,14 +200,40 @@ def judge_perm(ctx, tag, ops_path, source):
             if fp in reported:
                 continue
             reported.add(fp)
-            case_ops = " ".join(case_line.split()[:7])
+            case_ops = " ".join(t for t in case_line.split() if not t.startswith(("objs=", "res=")))
             rep = {"stream": "perm", "ops": [case_ops], "differing_observations": ks, "source": source}
             if fp != KNOWN_ORDER_FP:
+                if not confirm(ctx, case_ops, ks):
+                    # did not reproduce in 3 re-runs that let the control plane rest before generating: a state that
+                    # was still moving when the first run generated (asynchronous registries), not generation
+                    ctx.count("perm.unconfirmed." + fp)
+                    ctx.log("perm: %s on `%s` did not reproduce under a quiet-period re-run; not reported" % (fp, case_ops))
+                    reported.discard(fp)
+                    continue
                 rep["explain"] = explain(ctx, case_ops)
                 rep["minimised"] = minimise(ctx, case_ops, ks)
             ctx.violation(fp, what, rep, True)
     ctx.log("perm (%s): %d meshes, %d unsettled, %d with differing observations (%.0fs)" % (source, nc, skipped, len(bad), time.time() - t0))
     return nc
+
+
+def confirm(ctx, case_ops, keys):
+    """Re-run one case (3 attempts, one process each) with a quiet period after the state fingerprints agree."""
+    p = os.path.join(ctx.work, "perm.confirm.ops")
+    with open(p, "w") as f:
+        f.write(case_ops + "\n")
+    out = os.path.join(ctx.work, "perm.confirm.obs")
+    for attempt in range(3):
+        if os.path.exists(out):
+            os.remove(out)
+        rc, log = ctx.harness("observe", p, out, timeout=900, env_extra={"C17_QUIET_MS": "400"})
+        if rc != 0 or not os.path.exists(out):
+            return True  # cannot judge: report
+        for l in ctx.read_lines(out):
+            t = l.split()
+            if t and t[0] == "obs" and t[1] in keys and len(set(t[2:])) > 1:
+                return True
+    return False
 
 
 def explain(ctx, case_ops):
@@ -234,7 +260,7 @@ def run(ctx):
                 "perm: seeded meshes of 20-70 objects (Kubernetes services/pods/endpoint slices, multi-host and multi-address ServiceEntries, "
                 "WorkloadEntries, VirtualServices incl. gateway-bound and wildcard hosts, DestinationRules, Sidecars, Gateways, "
                 "PeerAuthentication, AuthorizationPolicy, RequestAuthentication, EnvoyFilter, Telemetry, WasmPlugin; 1-2 distinct creation "
-                "timestamps in 3 of 4 meshes) + 10 hand-written witness meshes; distinct = hash of (ops, outputs); non-trivial = at least one op / observation")
+                "timestamps in 3 of 4 meshes; every sixth mesh in ambient mode with a waypoint) + 11 hand-written witness meshes; distinct = hash of (ops, outputs); non-trivial = at least one op / observation")
     ctx.assumptions = [
         "a Go sort routine called with a strict weak order returns an ordered permutation of its input (IsSort); nothing else about it is assumed",
         "deterministic protobuf marshalling (protoconv.MessageToAny, proto.MarshalOptions{Deterministic:true}) is deterministic for equal messages within one binary",
@@ -324,13 +350,13 @@ MANIFEST = {
                    "pickBestVisibleNamespace, endpointSliceCache.get, locality grouping, watchedResourcesByOrder) with *_witness_unfixed for the pinned tree. "
                    "The models are tied to /repo on every run by a line-by-line differential (stream cmp). Byte-level determinism of real generation is "
                    "EXPLORED, not proved: a permutation harness builds each mesh K times with permuted insertion order, regenerates R times from rebuilt "
-                   "PushContexts in two processes and hashes every CDS/EDS/LDS/RDS/ECDS/NDS resource of three proxies; a Lean-verified monitor (allEqualB_iff) "
+                   "PushContexts in two processes and hashes every CDS/EDS/LDS/RDS/ECDS/NDS resource of three proxies (sidecars, router; waypoint + sidecar in every sixth mesh); a Lean-verified monitor (allEqualB_iff) "
                    "and Go judge every observation."),
     "level_note": ("PARTIAL: proved = comparator/fold logic + monitor (coverage.obligations); explored = real generation on ~160 (quick) / ~1500 (thorough) meshes "
-                   "(coverage.streams.perm, counters perm.*) - no difference observed is not a proof. Nine genuine non-determinism defects were found by the harness "
+                   "(coverage.streams.perm, counters perm.*) - no difference observed is not a proof. Ten genuine non-determinism defects were found by the harness "
                    "and repaired in /repo (fix: commits, see notes/C17.md; each has a witness mesh in harness/corpus/C17). Known deviation, by design of the code: "
                    "the ORDER of resources in EDS/RDS/ECDS responses follows Go map iteration over the requested name set (fingerprint "
-                   "perm:response-order:requested-names); contents are identical. Not covered: waypoint/ambient generators, SDS, multi-cluster, mesh networks, "
+                   "perm:response-order:requested-names); contents are identical. Not covered: ztunnel (WDS/WAUTH) generators, SDS, multi-cluster, mesh networks, "
                    "Gateway API objects; event-order convergence of the registries (C15/C16) is excluded by comparing only builds whose state fingerprints agree; "
                    "Kubernetes Nodes are always created before Pods. Trusted: Lean kernel + {propext, Classical.choice, Quot.sound}; hand-written models tied by "
                    "differential testing; hooks zz_verif_c17.go (model, xds, kube controller); deterministic protobuf marshalling assumed."),
